@@ -63,6 +63,23 @@ type Op struct {
 	OffUs int64 `json:"off_us,omitempty"`
 	// Mult: number of callers (M2: concurrent, released together; M1: sequential).
 	Mult int `json:"mult"`
+	// Ctx: the context the caller passes to the scheduler call (it is the caller's
+	// own, not the job's): "" live, "cancelled" already cancelled, "cancel-soon"
+	// cancelled about 30µs after the call begins.
+	Ctx string `json:"ctx,omitempty"`
+}
+
+// Recycle: the program cancels the job and immediately schedules the same name
+// again (a one-off job due NewOffUs later), then follows the NEW job.
+type Recycle struct {
+	// AtUs: M2, one-off: how long after scheduling the cancel is issued.  M1: the
+	// cancel and the new schedule follow the first schedule without yielding.  A
+	// periodic job is always cancelled while an instance of it is in progress.
+	AtUs     int64 `json:"at_us,omitempty"`
+	NewOffUs int64 `json:"new_off_us"`
+	// Follow: what happens to the new job while it is pending: "timer" (nothing),
+	// "run" (RunJob), "cancel" (CancelJob).
+	Follow string `json:"follow"`
 }
 
 // Case is a program.
@@ -87,14 +104,17 @@ type Case struct {
 	JobDurUs  int64   `json:"job_dur_us"`
 	Ops       []Op    `json:"ops"`
 	// Resched: after the job is finished, schedule the same name again.
-	Resched bool `json:"resched"`
-	Reps    int  `json:"reps"`
+	Resched bool     `json:"resched"`
+	Recycle *Recycle `json:"recycle,omitempty"`
+	Reps    int      `json:"reps"`
 }
 
 func mustJSON(v any) []byte {
 	b, _ := json.Marshal(v)
 	return b
 }
+
+func at0(t0 time.Time, d time.Duration) time.Time { return t0.Add(d) }
 
 func us(v int64) time.Duration { return time.Duration(v) * time.Microsecond }
 
@@ -124,6 +144,9 @@ func genOps(t *rapid.T, c *Case, nAnchor int, clearBefore bool) {
 		case "cancel", "cancelif":
 			op.Mult = rapid.SampledFrom([]int{1, 1, 2, 4}).Draw(t, "mult")
 		}
+		if op.Kind != "ctxcancel" {
+			op.Ctx = rapid.SampledFrom([]string{"", "", "", "", "cancelled", "cancelled", "cancel-soon"}).Draw(t, "callerCtx")
+		}
 		if c.Mode == "M2" {
 			op.Tick = rapid.IntRange(0, nAnchor-1).Draw(t, "tick")
 			op.OffUs = rapid.SampledFrom(deltaGrid).Draw(t, "delta")
@@ -141,6 +164,27 @@ func genCase(t *rapid.T, mode string) Case {
 	c.Periodic = rapid.IntRange(0, 9).Draw(t, "periodic") < 3
 	c.JobDurUs = rapid.SampledFrom([]int64{0, 0, 0, 100, 500, 1500}).Draw(t, "jobDur")
 	c.Resched = rapid.Bool().Draw(t, "resched")
+	if rapid.IntRange(0, 19).Draw(t, "recycle") < 3 {
+		// cancel + immediate re-use of the name; the old job is either a one-off job
+		// that is pending with its runtime clearly ahead, or a periodic job with an
+		// instance in progress
+		c.Resched = false
+		c.Reps = (reps() + 1) / 2
+		c.SyncTimer = rapid.Bool().Draw(t, "syncTimer")
+		c.Recycle = &Recycle{NewOffUs: 45000, Follow: rapid.SampledFrom([]string{"timer", "run", "cancel"}).Draw(t, "follow")}
+		if c.Periodic {
+			c.TicksUs = []int64{rapid.SampledFrom([]int64{-1000, 0, 1000}).Draw(t, "first")}
+			c.PeriodUs = 3000
+			c.HorizonUs = 400000
+			c.JobDurUs = rapid.SampledFrom([]int64{1500, 3000}).Draw(t, "jobDur")
+		} else {
+			c.TicksUs = []int64{50000}
+			if mode == "M2" {
+				c.Recycle.AtUs = rapid.SampledFrom([]int64{0, 50, 500, 2000}).Draw(t, "at")
+			}
+		}
+		return c
+	}
 	if mode == "M1" {
 		c.SyncTimer = rapid.IntRange(0, 9).Draw(t, "syncTimer") < 8
 		first := rapid.SampledFrom([]int64{-1000000, -1000, -1, 0, 0, 30000}).Draw(t, "first")
@@ -209,6 +253,21 @@ func sanitise(c *Case) {
 	if c.HorizonUs > 2000000 {
 		c.HorizonUs = 2000000
 	}
+	if c.Recycle != nil {
+		c.Ops, c.Resched = nil, false
+		if c.Recycle.NewOffUs < 45000 {
+			c.Recycle.NewOffUs = 45000
+		}
+		if c.Periodic && (c.PeriodUs <= 0 || c.HorizonUs < 400000) {
+			c.PeriodUs, c.HorizonUs = 3000, 400000
+		}
+		if c.Periodic && c.JobDurUs < 1000 {
+			c.JobDurUs = 1000
+		}
+		if !c.Periodic && c.TicksUs[0] < 50000 {
+			c.TicksUs[0] = 50000
+		}
+	}
 	for i := range c.Ops {
 		if c.Ops[i].Mult < 1 {
 			c.Ops[i].Mult = 1
@@ -257,9 +316,29 @@ type obs struct {
 	stuck      string
 	stuckDump  string
 	stuckProbe string
+	rc         *recycleObs
 	// parkedAt: M2 with a runtime at least 20ms ahead: the instant at which the
 	// job goroutine was seen blocked in its select (-1: not seen).
 	parkedAt time.Duration
+}
+
+// recycleObs: what was seen of the job scheduled under the cancelled job's name.
+type recycleObs struct {
+	skipped    string // why the recycle step could not be performed as planned
+	cancelErr  error
+	schedErr   error
+	newRuntime time.Duration
+	// pending-state checks, made at checkAt
+	checkAt        time.Duration
+	exists, listed bool
+	dupErr         error
+	// follow-up call (run | cancel)
+	followErr        error
+	followStart      time.Duration
+	followEnd        time.Duration
+	parkedBefore     bool // the new job's goroutine was seen parked before a follow-up cancel
+	runs             []span
+	settledAfterward bool
 }
 
 type recorder struct {
@@ -521,7 +600,7 @@ func stuckBlocked(gs []schedGoroutine) map[string]schedGoroutine {
 	return m
 }
 
-func callOp(s *advanced.Service, ctx context.Context, cancelCtx context.CancelFunc, kind string, t0 time.Time, r *opRes) {
+func callOp(s *advanced.Service, parentCancel context.CancelFunc, kind, ctxMode string, t0 time.Time, r *opRes) {
 	defer func() {
 		if p := recover(); p != nil {
 			r.panicked = fmt.Sprint(p)
@@ -529,6 +608,16 @@ func callOp(s *advanced.Service, ctx context.Context, cancelCtx context.CancelFu
 			r.returned = true
 		}
 	}()
+	// the caller's own context
+	ctx, cancel := context.WithCancel(context.Background())
+	defer cancel()
+	switch ctxMode {
+	case "cancelled":
+		cancel()
+	case "cancel-soon":
+		tm := time.AfterFunc(30*time.Microsecond, cancel)
+		defer tm.Stop()
+	}
 	r.start = time.Since(t0)
 	switch kind {
 	case "run":
@@ -542,7 +631,7 @@ func callOp(s *advanced.Service, ctx context.Context, cancelCtx context.CancelFu
 	case "cancelif":
 		s.CancelJobIfExists(ctx, jobName)
 	case "ctxcancel":
-		cancelCtx()
+		parentCancel()
 	}
 	r.end = time.Since(t0)
 	r.returned = true
@@ -565,6 +654,9 @@ func runRep(c *Case, base int, can *canary, leaked map[string]bool, leakedSelect
 	nCalls := 0
 	for _, op := range c.Ops {
 		nCalls += op.Mult
+	}
+	if c.Recycle != nil {
+		nCalls = 1
 	}
 	o.ops = make([]opRes, nCalls)
 	o.ticks = make([]time.Duration, len(c.TicksUs))
@@ -609,7 +701,69 @@ func runRep(c *Case, base int, can *canary, leaked map[string]bool, leakedSelect
 		return svc.ScheduleJob(ctx, "c02", jobName, t0.Add(o.ticks[0]), rec.job)
 	}
 
-	if c.Mode == "M1" {
+	var rec2 *recorder
+	if c.Recycle != nil {
+		rc := &recycleObs{}
+		o.rc = rc
+		t0 = time.Now()
+		rec.t0 = t0
+		if err := schedule(); err != nil {
+			return nil, fmt.Errorf("schedule: %w", err)
+		}
+		switch {
+		case c.Periodic:
+			// wait for an instance of the periodic job to be in progress
+			for i := 0; ; i++ {
+				rec.mu.Lock()
+				cur := rec.cur
+				rec.mu.Unlock()
+				if cur > 0 {
+					break
+				}
+				if i > 4000 {
+					rc.skipped = "no instance of the periodic job in progress within 200ms"
+					break
+				}
+				time.Sleep(50 * time.Microsecond)
+			}
+		case c.Mode != "M1" && c.Recycle.AtUs > 0:
+			time.Sleep(us(c.Recycle.AtUs))
+		}
+		if rc.skipped == "" {
+			// cancel and, without anything in between, schedule the name again
+			o.ops[0].kind = "cancel"
+			callOp(svc, cancelCtx, "cancel", "", t0, &o.ops[0])
+			rc.cancelErr = o.ops[0].err
+			rec2 = &recorder{t0: t0}
+			at := time.Now().Add(us(c.Recycle.NewOffUs))
+			rc.newRuntime = at.Sub(t0)
+			rc.schedErr = svc.ScheduleJob(bg, "c02", jobName, at, rec2.job)
+		}
+		if rc.skipped == "" && rc.schedErr == nil {
+			// let the cancelled job's goroutine deal with its signal (a periodic job
+			// first finishes the instance in progress)
+			time.Sleep(us(c.JobDurUs) + 2*time.Millisecond)
+			rc.exists = svc.JobExists(bg, jobName)
+			for _, n := range svc.ListJobs(bg) {
+				if n == jobName {
+					rc.listed = true
+				}
+			}
+			rc.dupErr = svc.ScheduleJob(bg, "c02", jobName, at0(t0, rc.newRuntime), rec2.job)
+			rc.checkAt = time.Since(t0)
+			switch c.Recycle.Follow {
+			case "run":
+				rc.followStart = time.Since(t0)
+				rc.followErr = svc.RunJob(bg, jobName)
+				rc.followEnd = time.Since(t0)
+			case "cancel":
+				rc.parkedBefore = jobGoroutineParked(leakedSelect)
+				rc.followStart = time.Since(t0)
+				rc.followErr = svc.CancelJob(bg, jobName)
+				rc.followEnd = time.Since(t0)
+			}
+		}
+	} else if c.Mode == "M1" {
 		// Everything up to the end of this block runs without yielding the only P.
 		t0 = time.Now()
 		rec.t0 = t0
@@ -620,7 +774,7 @@ func runRep(c *Case, base int, can *canary, leaked map[string]bool, leakedSelect
 		for _, op := range c.Ops {
 			for m := 0; m < op.Mult; m++ {
 				o.ops[k].kind = op.Kind
-				callOp(svc, ctx, cancelCtx, op.Kind, t0, &o.ops[k])
+				callOp(svc, cancelCtx, op.Kind, op.Ctx, t0, &o.ops[k])
 				k++
 			}
 		}
@@ -635,7 +789,7 @@ func runRep(c *Case, base int, can *canary, leaked map[string]bool, leakedSelect
 				r.planned = us(c.TicksUs[0] + int64(op.Tick)*c.PeriodUs + op.OffUs)
 				k++
 				wg.Add(1)
-				go func(kind string) {
+				go func(kind, ctxMode string) {
 					defer wg.Done()
 					<-scheduled
 					at := t0.Add(r.planned)
@@ -644,8 +798,8 @@ func runRep(c *Case, base int, can *canary, leaked map[string]bool, leakedSelect
 					}
 					for time.Until(at) > 0 {
 					}
-					callOp(svc, ctx, cancelCtx, kind, t0, r)
-				}(op.Kind)
+					callOp(svc, cancelCtx, kind, ctxMode, t0, r)
+				}(op.Kind, op.Ctx)
 			}
 		}
 		t0 = time.Now()
@@ -693,13 +847,28 @@ func runRep(c *Case, base int, can *canary, leaked map[string]bool, leakedSelect
 	if h := us(c.HorizonUs + c.PeriodUs); h > lastTick {
 		lastTick = h
 	}
+	if o.rc != nil && o.rc.newRuntime > lastTick && !c.Periodic {
+		lastTick = o.rc.newRuntime
+	}
+	if o.rc != nil && c.Periodic {
+		// the cancelled periodic job is expected to be gone; what remains due is the
+		// new job (a periodic job that ignores the cancel goes on to its horizon and
+		// is then seen by the ordinary clauses)
+		lastTick = o.rc.newRuntime
+	}
 	progress := func() [3]int {
 		hmu.Lock()
 		h := len(o.handouts)
 		hmu.Unlock()
+		n2, c2 := 0, 0
+		if rec2 != nil {
+			rec2.mu.Lock()
+			n2, c2 = len(rec2.runs), rec2.cur
+			rec2.mu.Unlock()
+		}
 		rec.mu.Lock()
 		defer rec.mu.Unlock()
-		return [3]int{h, len(rec.runs), rec.cur}
+		return [3]int{h, len(rec.runs) + n2, rec.cur + c2}
 	}
 	var stuck *schedGoroutine
 	o.settled, stuck = settle(base, t0.Add(lastTick), can, leaked, progress)
@@ -729,6 +898,20 @@ func runRep(c *Case, base int, can *canary, leaked map[string]bool, leakedSelect
 			o.runs, o.maxConc = rec.snapshot()
 		}
 	}
+	if o.rc != nil && rec2 != nil {
+		if o.rc.schedErr == nil {
+			// the new job: look (again) when its runtime is clearly over
+			if d := time.Until(t0.Add(o.rc.newRuntime + margin)); d > 0 && o.settled {
+				rs, _ := rec2.snapshot()
+				if len(rs) == 0 {
+					time.Sleep(d)
+					o.settled = waitGoroutines(base, settleCeiling)
+				}
+			}
+		}
+		o.rc.runs, _ = rec2.snapshot()
+		o.rc.settledAfterward = o.settled
+	}
 	o.exists = svc.JobExists(bg, jobName)
 	for _, n := range svc.ListJobs(bg) {
 		if n == jobName {
@@ -736,7 +919,7 @@ func runRep(c *Case, base int, can *canary, leaked map[string]bool, leakedSelect
 		}
 	}
 	for i := range o.ops {
-		if c.Mode == "M2" && o.ops[i].start-o.ops[i].planned > perturbedGap {
+		if c.Mode == "M2" && c.Recycle == nil && o.ops[i].start-o.ops[i].planned > perturbedGap {
 			o.perturbed = true
 		}
 	}
@@ -1050,6 +1233,86 @@ func judgePeriodic(c *Case, o *obs) []verdict {
 	return vs
 }
 
+// judgeRecycle: the job scheduled under a cancelled job's name is a job like any
+// other: while it is pending the scheduler knows it (listed, its name is taken, it
+// can be run early and cancelled), it runs exactly once unless cancelled, and a
+// cancel clearly before its time means it never runs.
+func judgeRecycle(c *Case, o *obs) []verdict {
+	rc := o.rc
+	if rc == nil || rc.skipped != "" || rc.cancelErr != nil {
+		return nil
+	}
+	// The old job must have been cancelled clearly before its own runtime (a cancel
+	// that lands on the runtime may lose against the timer, and what the old job then
+	// does to the table is another matter); a periodic old job must not have reached
+	// the end of its runtimes.
+	if !c.Periodic && o.ops[0].end+margin > o.ticks[0] {
+		return nil
+	}
+	if c.Periodic && o.exhausted {
+		return nil
+	}
+	var vs []verdict
+	if rc.schedErr != nil {
+		return append(vs, verdict{"name-not-reusable", "CancelJob returned nil but scheduling the name again at once failed: " + rc.schedErr.Error()})
+	}
+	if !rc.settledAfterward {
+		return vs
+	}
+	what := fmt.Sprintf("new job due at %v, checked at %v: JobExists=%v listed=%v, scheduling the name once more returned %v; follow-up %s@%v..%v returned %v; new job runs=%v", rc.newRuntime, rc.checkAt, rc.exists, rc.listed, rc.dupErr, c.Recycle.Follow, rc.followStart, rc.followEnd, rc.followErr, rc.runs)
+	startedBefore := func(t time.Duration) bool {
+		for _, r := range rc.runs {
+			if r.start <= t {
+				return true
+			}
+		}
+		return false
+	}
+	pending := rc.checkAt+margin <= rc.newRuntime && !startedBefore(rc.checkAt)
+	if pending {
+		if !rc.exists || !rc.listed {
+			vs = append(vs, verdict{"recycled-job-not-listed", "a pending job scheduled under a just-cancelled name is not known to the scheduler: " + what})
+		}
+		if rc.dupErr == nil {
+			vs = append(vs, verdict{"recycled-name-accepted-twice", "the name of a pending job was accepted again: " + what})
+		}
+	}
+	if rc.dupErr == nil {
+		// a third job exists under the name (legitimately, if the check came after the
+		// new job had run): nothing more can be said about counts
+		return vs
+	}
+	n := len(rc.runs)
+	switch c.Recycle.Follow {
+	case "timer":
+		if n != 1 {
+			vs = append(vs, verdict{"recycled-job-not-run-once", "the new job was not cancelled and did not run exactly once: " + what})
+		}
+	case "run":
+		if pending && rc.followEnd+margin <= rc.newRuntime && rc.followErr != nil {
+			vs = append(vs, verdict{"recycled-job-run-now-refused", "RunJob on the pending new job failed: " + what})
+		}
+		if n != 1 {
+			vs = append(vs, verdict{"recycled-job-not-run-once", "the new job was not cancelled and did not run exactly once: " + what})
+		}
+	case "cancel":
+		clearly := pending && rc.followEnd+margin <= rc.newRuntime
+		if clearly && rc.followErr != nil {
+			vs = append(vs, verdict{"recycled-job-cancel-refused", "CancelJob on the pending new job failed: " + what})
+			if n != 1 {
+				vs = append(vs, verdict{"recycled-job-not-run-once", "the new job was not cancelled and did not run exactly once: " + what})
+			}
+		}
+		if clearly && rc.followErr == nil && rc.parkedBefore && !o.perturbed && n != 0 {
+			vs = append(vs, verdict{"recycled-job-ran-after-cancel", "the new job was cancelled clearly before its time and ran: " + what})
+		}
+		if n > 1 {
+			vs = append(vs, verdict{"recycled-job-not-run-once", "the new job ran more than once: " + what})
+		}
+	}
+	return vs
+}
+
 // judgeStuck: the scheduler's own job goroutine of this repetition is parked for
 // good inside scheduler code (see settle).  The statement speaks about two such
 // situations: a periodic job that does not keep ticking after an early run, and a
@@ -1116,6 +1379,9 @@ func setRuntime(c *Case) func() {
 }
 
 func nontrivial(c *Case) bool {
+	if c.Recycle != nil {
+		return true
+	}
 	for _, op := range c.Ops {
 		switch op.Kind {
 		case "cancel", "cancelif", "ctxcancel":
@@ -1162,6 +1428,15 @@ func labels(c *Case) []string {
 	}
 	if c.TicksUs[0] < 0 {
 		ls = append(ls, "runtime-already-due")
+	}
+	if c.Recycle != nil {
+		ls = append(ls, "cancel-then-reschedule-same-name", "cancel-then-reschedule:follow-"+c.Recycle.Follow)
+	}
+	for _, op := range c.Ops {
+		if op.Ctx != "" {
+			ls = append(ls, "op-with-caller-context:"+op.Ctx)
+			break
+		}
 	}
 	if c.Resched {
 		ls = append(ls, "reschedule-same-name")
@@ -1254,6 +1529,10 @@ func check(t ev.TB, c *Case) {
 			vs = judgePeriodic(c, o)
 		} else {
 			vs = judgeOneOff(c, o)
+		}
+		vs = append(vs, judgeRecycle(c, o)...)
+		if o.rc != nil && o.rc.skipped != "" {
+			ev.Label("recycle-not-performed")
 		}
 		judged++
 		if o.perturbed {
